@@ -268,6 +268,13 @@ func runWin(sc WinScenario) (evs []Ev, inconclusive string) {
 			if !sc.Burst && !in.WaitFor(T, delivered) { // late updates are sent from inside Add
 				return in.Events(), "late update not consumed"
 			}
+		case "idlewait":
+			// the source falls idle for longer than IDLETIMEOUT: the watermark ticker advances on processing time and flushes the open windows
+			time.Sleep(time.Duration(sc.Cfg.Idle)*time.Millisecond + 600*time.Millisecond)
+			if !in.WaitFor(T, delivered) {
+				return in.Events(), "idle flush not consumed"
+			}
+			in.Log(Ev{"tr": sc.Tr, "e": "idlewait"})
 		case "mtrig":
 			// the application flushes the window by hand (TriggerWindow): whatever is open is delivered now
 			in.Log(Ev{"tr": sc.Tr, "e": "mtrig"})
